@@ -218,8 +218,8 @@ func writers(c *props.Ctx, p *c09path, bs *site, S int64, storage *types.Var) (*
 	var wfn *ssa.Function
 	var wcp *ssa.Parameter
 	for _, fn := range p.order {
-		if fn == bs.fn || fn == bs.blockFnOrSelf() || fn == p.index {
-			continue
+		if fn == bs.fn || fn == bs.blockFnOrSelf() || fn == p.index || (bs.m != nil && bs.m.helpers[fn]) {
+			continue // the site itself, or a helper that fills the site's per-corner arrays (judged with the site)
 		}
 		m := newSlotModel()
 		e := m.eval(nil)
